@@ -1562,3 +1562,45 @@ func constantInt(c constant.Value) (int64, bool) {
 	}
 	return constant.Int64Val(c)
 }
+
+// ValuesUnder lists the expressions the local variable named by id can hold at the site in the executions that take
+// none of the cut edges: its reaching definitions there, each followed through plain copies of other locals (at the
+// place of the definition, under the same assumption). ok is false when a value is not an expression (a parameter or
+// a variable not assigned on some path, `x++`, a range variable, a result of a multi-valued call).
+func (g *Graph) ValuesUnder(id *ast.Ident, at Site, cut func(b *Block, k int) bool) (vals []ast.Expr, ok bool) {
+	return g.valuesUnder(id, at, cut, 0)
+}
+
+func (g *Graph) valuesUnder(id *ast.Ident, at Site, cut func(b *Block, k int) bool, depth int) ([]ast.Expr, bool) {
+	f := g.Fn
+	obj, isVar := f.ObjOf(id).(*types.Var)
+	if !isVar || obj.IsField() || obj.Pkg() == nil || obj.Parent() == obj.Pkg().Scope() || depth > 4 {
+		return []ast.Expr{id}, true
+	}
+	if f.Body == nil || obj.Pos() < f.Body.Pos() || obj.Pos() > f.Body.End() {
+		return []ast.Expr{id}, true // a parameter: itself
+	}
+	defs, entry := g.ReachingDefsUnder(id, at, cut)
+	if entry || len(defs) == 0 {
+		return nil, false
+	}
+	var out []ast.Expr
+	for _, d := range defs {
+		rhs, _, tuple, has := f.assignTo(d, obj)
+		if !has || rhs == nil || tuple {
+			return nil, false
+		}
+		if rid, isId := ast.Unparen(rhs).(*ast.Ident); isId {
+			sites := g.Find(func(n ast.Node) bool { return n == d })
+			if len(sites) == 1 {
+				if vs, ok := g.valuesUnder(rid, sites[0], cut, depth+1); ok {
+					out = append(out, vs...)
+					continue
+				}
+			}
+			return nil, false
+		}
+		out = append(out, rhs)
+	}
+	return out, true
+}
